@@ -12,7 +12,7 @@ theorem getElem?_patch_outside (b : Bytes) (off : Nat) (bs : Bytes) (j : Nat) (h
 theorem C19_pe_roundtrip_aux (b name payload : Bytes) (v : ValidPe b name payload) :
     ∃ out, addPe b name payload = .ok out ∧
       extractPe out name = .ok (some (payload ++ zeros (alignUp payload.length (pFileAlign b) - payload.length))) := by
-  obtain ⟨b2, img, nh, hl2, hb2f, hadd⟩ := addPe_eq b name payload v
+  obtain ⟨b2, img, nh, hl2, hb2f, _, _, hadd⟩ := addPe_eq b name payload v
   refine ⟨_, hadd, ?_⟩
   obtain ⟨hsig0, hsig, hnum1, hnum, hopt, hfa, hsa, hend, hsize, hva, hva1, hptr, hnames, hname0, hnamelen, hpl⟩ := v
   have hU64 : U64 = 2 ^ 64 := rfl
@@ -181,5 +181,73 @@ theorem C19_pe_roundtrip_aux (b name payload : Bytes) (v : ValidPe b name payloa
   · omega
   · exact e_data
   · omega
+
+
+/-- **What `add_section_to_pe` leaves alone** (for every image meeting `ValidPe`): below the end of the old section table every
+byte is the input's except the section count, `SizeOfImage`, `SizeOfHeaders` and the raw-data pointers of the old sections; every
+byte from there to the end of the input is found unchanged `pBump` bytes further on (`pBump` = 0 when there was room for the new
+header, else as many whole file alignments as it takes); and each old section's `PointerToRawData` grew by exactly that amount -
+so every old section's raw data is found, unchanged, where its header in the result points. -/
+theorem addPe_preserved (b name payload : Bytes) (v : ValidPe b name payload) :
+    ∃ out, addPe b name payload = .ok out ∧
+      (∀ j, j < pEnd b → (∀ i, i < pNum b → ¬ (pHdrs b + i * 40 + 20 ≤ j ∧ j < pHdrs b + i * 40 + 24)) →
+          ¬ (pFh b + 2 ≤ j ∧ j < pFh b + 4) → ¬ (pOpt b + 56 ≤ j ∧ j < pOpt b + 64) → out[j]? = b[j]?) ∧
+      (∀ j, pEnd b + 40 ≤ j + pBump b → j < b.length → pEnd b ≤ j → out[j + pBump b]? = b[j]?) ∧
+      (∀ i, i < pNum b → leVal (slice out (pHdrs b + i * 40 + 20) 4) = leVal (slice b (pHdrs b + i * 40 + 20) 4) + pBump b) := by
+  obtain ⟨b2, img, nh, hl2, hb2f, hb2hi, hb2ptr, hadd⟩ := addPe_eq b name payload v
+  refine ⟨_, hadd, ?_⟩
+  obtain ⟨hsig0, hsig, hnum1, hnum, hopt, hfa, hsa, hend, hsize, hva, hva1, hptr, hnames, hname0, hnamelen, hpl⟩ := v
+  have hU64 : U64 = 2 ^ 64 := rfl
+  have hU32 : U32 = 2 ^ 32 := rfl
+  have hb2_ : ∀ v, (leBytes 2 v).length = 2 := fun v => length_leBytes 2 v
+  have hb4 : ∀ v, (leBytes 4 v).length = 4 := fun v => length_leBytes 4 v
+  have hhdrs : pFh b + 84 ≤ pHdrs b := by unfold pHdrs pOpt; omega
+  have hen : pHdrs b + pNum b * 40 = pEnd b := rfl
+  have hopt_ : pOpt b = pFh b + 20 := rfl
+  have hrs := alignUp_bounds payload.length (pFileAlign b) hpl hfa
+  have hso := alignUp_bounds (b.length + pBump b) (pFileAlign b) (by omega) hfa
+  obtain ⟨hhl, -, -⟩ := slice_peHdr name (alignUp (pPrevVa b + pPrevVs b) (pSecAlign b)) (alignUp payload.length (pFileAlign b)) hnamelen
+  generalize hH : peHdr name (alignUp (pPrevVa b + pPrevVs b) (pSecAlign b)) (alignUp payload.length (pFileAlign b)) = H at *
+  generalize hRS : alignUp payload.length (pFileAlign b) = rawSize at *
+  generalize hSO : alignUp (b.length + pBump b) (pFileAlign b) = newSecOff at *
+  have hroom : pEnd b + 40 ≤ b2.length := by
+    rw [hl2]
+    by_cases hg : pGap b < 40
+    · have hbump : pBump b = alignUp (40 - pGap b) (pFileAlign b) := by unfold pBump; rw [if_pos hg]
+      have hbb := alignUp_bounds (40 - pGap b) (pFileAlign b) (by omega) hfa
+      omega
+    · omega
+  have hwH : pEnd b + H.length ≤ b2.length := by rw [hhl]; exact hroom
+  have hl3 : (patch b2 (pEnd b) H).length = b.length + pBump b := by rw [length_patch _ _ _ hwH, hl2]
+  obtain ⟨B4, hB4⟩ : ∃ B4 : Bytes, B4 = patch b2 (pEnd b) H ++ zeros (newSecOff - (b.length + pBump b)) ++ (payload ++ zeros (rawSize - payload.length)) := ⟨_, rfl⟩
+  rw [← hB4]
+  have hl4 : B4.length = newSecOff + rawSize := by
+    rw [hB4]; simp only [List.length_append, hl3, zeros, List.length_replicate]; omega
+  have w5 : pEnd b + 20 + (leBytes 4 newSecOff).length ≤ B4.length := by rw [hb4, hl4]; omega
+  have hl5 := length_patch B4 (pEnd b + 20) (leBytes 4 newSecOff) w5
+  have w6 : pOpt b + 56 + (leBytes 4 img).length ≤ (patch B4 (pEnd b + 20) (leBytes 4 newSecOff)).length := by rw [hb4, hl5, hl4]; omega
+  have hl6 := length_patch _ (pOpt b + 56) (leBytes 4 img) w6
+  have w7 : pOpt b + 60 + (leBytes 4 nh).length ≤ (patch (patch B4 (pEnd b + 20) (leBytes 4 newSecOff)) (pOpt b + 56) (leBytes 4 img)).length := by
+    rw [hb4, hl6, hl5, hl4]; omega
+  generalize hOUT : patch (patch (patch B4 (pEnd b + 20) (leBytes 4 newSecOff)) (pOpt b + 56) (leBytes 4 img)) (pOpt b + 60) (leBytes 4 nh) = out at *
+  have hout : ∀ j, ¬ (pEnd b + 20 ≤ j ∧ j < pEnd b + 24) → ¬ (pOpt b + 56 ≤ j ∧ j < pOpt b + 64) → out[j]? = B4[j]? := by
+    intro j h1 h2
+    rw [← hOUT, getElem?_patch_outside _ _ _ _ w7 (by rw [hb4]; omega), getElem?_patch_outside _ _ _ _ w6 (by rw [hb4]; omega),
+        getElem?_patch_outside _ _ _ _ w5 (by rw [hb4]; omega)]
+  refine ⟨?_, ?_, ?_⟩
+  · intro j h1 h2 h3 h4
+    rw [hout j (by omega) h4, hB4]
+    rw [List.append_assoc, List.getElem?_append_left (by rw [hl3]; omega), getElem?_patch_outside _ _ _ _ hwH (by left; exact h1), hb2f j h1 h2,
+        getElem?_patch_outside _ _ _ _ (by rw [hb2_]; omega) (by rw [hb2_]; omega)]
+  · intro j h1 h2 h3
+    rw [hout _ (by omega) (by omega), hB4]
+    rw [List.append_assoc, List.getElem?_append_left (by rw [hl3]; omega), getElem?_patch_outside _ _ _ _ hwH (by rw [hhl]; right; omega), hb2hi j h3]
+  · intro i hi
+    rw [← hb2ptr i hi]
+    congr 1
+    apply slice_congr
+    intro k hk
+    rw [hout _ (by omega) (by omega), hB4]
+    rw [List.append_assoc, List.getElem?_append_left (by rw [hl3]; omega), getElem?_patch_outside _ _ _ _ hwH (by left; omega)]
 
 end Rj.Exe
